@@ -27,7 +27,7 @@ def NameOK (n : Bytes) : Prop := n ≠ [] ∧ trimSpace n = n ∧ NL ∉ n
 instance (n : Bytes) : Decidable (NameOK n) := inferInstanceAs (Decidable (Txtar.NameOK n))
 
 /-- only for evaluating the concrete `example`s below -/
-instance : DecidableEq (Except QErr Bytes)
+local instance : DecidableEq (Except QErr Bytes)
   | .ok a, .ok b => decidable_of_iff (a = b) (by simp)
   | .error a, .error b => decidable_of_iff (a = b) (by simp)
   | .ok _, .error _ => isFalse (by simp)
